@@ -290,11 +290,13 @@ def stripLoc (t : Bytes) : Bytes :=
   | some ds => t.take 33 ++ ds
   | none => t
 
+/-- one line with every locator reduced to hash+size -/
+def stripLine (line : Bytes) : Bytes :=
+  match splitOn bSpace line with
+  | nm :: rest => joinWith bSpace (nm :: rest.map stripLoc)
+  | [] => []
+
 /-- The manifest text with every locator reduced to hash+size (what the portable data hash covers). -/
-def stripHints (txt : Bytes) : Bytes :=
-  joinWith bNL ((splitOn bNL txt).map fun line =>
-    match splitOn bSpace line with
-    | nm :: rest => joinWith bSpace (nm :: rest.map stripLoc)
-    | [] => [])
+def stripHints (txt : Bytes) : Bytes := joinWith bNL ((splitOn bNL txt).map stripLine)
 
 end ArvVerif.C10
